@@ -305,3 +305,164 @@ specialise(
     bounds="source kind fixed per instance: select_one_from_file csv/xml, select_multiple_from_file geojson, xml-external, csv-external, pulldata, same file twice, same id with different URI",
     weight=80,
 )
+
+
+# ---- b': value/label parameters and file-type defaults of select-from-file ---------------------------
+def c09_from_file(ext: int, multi: bool, p_val: bool, p_lab: bool, p_rand: bool, v0: int, v1: int) -> bool:
+    """
+    vpre: 97 <= v0 <= 122 and 97 <= v1 <= 122
+    vpost: _ == True
+    """
+    e = ["csv", "xml", "geojson"][ext]
+    V = S(v0, v1)
+    # documented defaults: name/label, and id/title for GeoJSON feature collections
+    want_v, want_l = ("id", "title") if ext == 2 else ("name", "label")
+    params = []
+    if p_val:
+        params.append("value=" + V)
+        want_v = V
+    if p_lab:
+        params.append("label=" + V + "x")
+        want_l = V + "x"
+    if p_rand:
+        params.append("randomize=true")
+    q = {"type": ("select_multiple" if multi else "select_one") + "_from_file ab." + e, "name": "q1", "label": "Q1"}
+    if params:
+        q["parameters"] = " ".join(params)
+    survey, _w, _js = build_survey({"survey": [q]})
+    root = survey.xml()
+    sels = elements(root, "select" if multi else "select1")
+    if len(sels) != 1:
+        return False
+    its = [c for c in child_elements(sels[0]) if c.tagName == "itemset"]
+    if len(its) != 1:
+        return False
+    ns = "instance('ab')/root/item"
+    if p_rand:
+        ns = "randomize(" + ns + ")"
+    if its[0].getAttribute("nodeset") != ns:
+        return False
+    kids = [(c.tagName, c.getAttribute("ref")) for c in child_elements(its[0])]
+    return kids == [("value", want_v), ("label", want_l)]
+
+
+specialise(
+    "C09",
+    "b.from-file-params",
+    c09_from_file,
+    {"ext": [0, 1, 2]},
+    timeout=300,
+    kernel=K,
+    shims=("S1", "S2", "S3", "S4"),
+    symbolic="presence of value=, label= and randomize= in the parameters cell (3 symbolic booleans), select_one / select_multiple (boolean), a 2-letter parameter value",
+    bounds="external file type fixed per instance (csv, xml, geojson: the defaults differ)",
+    weight=60,
+)
+
+
+# ---- d: itemsets CSV for select_one_external at any nesting -------------------------------------------
+shims.s6_csv_writer()
+
+
+def _csv_rows(text: str):
+    """Parser for the QUOTE_ALL dialect, written from RFC 4180."""
+    rows, row, i, n = [], [], 0, len(text)
+    while i < n:
+        if text[i] != '"':
+            return None
+        i += 1
+        cell = ""
+        while True:
+            if i >= n:
+                return None
+            if text[i] == '"':
+                if i + 1 < n and text[i + 1] == '"':
+                    cell += '"'
+                    i += 2
+                    continue
+                i += 1
+                break
+            cell += text[i]
+            i += 1
+        row.append(cell)
+        if text[i : i + 1] == ",":
+            i += 1
+        elif text[i : i + 2] == "\r\n":
+            i += 2
+            rows.append(row)
+            row = []
+        else:
+            return None
+    return rows if not row else None
+
+
+def c09_itemsets(nest: int, hdr: bool, pa1: bool, pb0: bool, pb2: bool, c0: int, c1: int) -> bool:
+    """
+    vpre: 33 <= c0 <= 126 and 33 <= c1 <= 126
+    vpost: _ == True
+    """
+    from pyxform.utils import external_choices_to_csv, has_external_choices
+    from pyxform.xls2json import workbook_to_json
+    from pyxform.xls2json_backends import get_xlsform
+
+    sel = {"type": "select_one_external cities", "name": "q1", "label": "Q1", "choice_filter": "state=${st}"}
+    st = {"type": "text", "name": "st", "label": "ST"}
+    wrap = [[], ["group"], ["repeat"], ["repeat", "group"], ["group", "group"]][nest]
+    rows = [st]
+    for i, w in enumerate(wrap):
+        rows.append({"type": "begin " + w, "name": f"w{i}", "label": "W"})
+    rows.append(sel)
+    for w in reversed(wrap):
+        rows.append({"type": "end " + w})
+    # sparse sheet: cells may be absent; texts carry symbolic characters (quote and comma included)
+    r0 = {"list_name": "cities", "name": "n0", "zone": "z" + S(c0)}  # names are dict/set keys downstream: concrete
+    r1 = {"list_name": "cities", "name": "m1", "label": 'L, "q" ' + S(c1)}  # comma and quote: concrete, the tracer is symbolic
+    if pa1:
+        r0["label"] = "A" + S(c1)
+    if pb0:
+        r1["state"] = "s" + S(c0)
+    if pb2:
+        r0["state"] = "t"
+    ext = [r0, r1]
+    wb = {"survey": rows, "external_choices": ext}
+    header = ["list_name", "name", "zone", "label", "state"]
+    if hdr:
+        wb["external_choices_header"] = [{k: None for k in header}]
+    data = get_xlsform(xlsform=wb)
+    js = workbook_to_json(workbook_dict=data, form_name="data", warnings=[])
+    if not has_external_choices(json_struct=js):
+        return False  # convert() would write no itemsets.csv although the form uses external choices
+    text = external_choices_to_csv(workbook_dict=data)
+    if text is None:
+        return False
+    # expected sheet image: header row (given, or first appearance order), then every cell under
+    # its own header, absent cells empty; rendered in the QUOTE_ALL dialect (RFC 4180)
+    head = list(header)
+    if not hdr:
+        head = []
+        for r in ext:
+            for k in r:
+                if k not in head:
+                    head.append(k)
+
+    def line(cells):
+        return ",".join('"' + c.replace('"', '""') + '"' for c in cells) + "\r\n"
+
+    want = line(head)
+    for r in ext:
+        want += line([r.get(k, "") for k in head])
+    return text == want
+
+
+specialise(
+    "C09",
+    "d.itemsets-csv",
+    c09_itemsets,
+    {"nest": [0, 1, 2, 3, 4]},
+    timeout=400,
+    kernel=("pyxform.utils:external_choices_to_csv", "pyxform.utils:has_external_choices", "pyxform.xls2json:workbook_to_json", "pyxform.xls2json_backends:get_xlsform"),
+    shims=("S1", "S2", "S4", "S6"),
+    symbolic="presence of optional cells on two external_choices rows (3 symbolic booleans: sparse rows), explicit header row supplied or not (boolean), two symbolic printable ASCII characters inside cell texts (quote and comma included; one cell also holds a literal comma and quotes)",
+    bounds="nesting of the select_one_external question fixed per instance (top level, group, repeat, group in repeat, group in group); 2 sheet rows x 5 columns; CSV parsed back with an RFC 4180 reader",
+    weight=80,
+)
